@@ -4,9 +4,11 @@ namespace Driver.C12
 open MaddyVerif.TimeWheel Driver
 
 /-! `C12 run <u|f> <semCap> <withClose 0|1> <time:budget,…|-> <schedule tokens,…|->`
-schedule tokens: `t<i>.<choice>` `c` `k` `kb<kind>` `kt` `ku<i>` `ks` `a<d>`  (`kb<kind>`: the tick goroutine's
+schedule tokens: `t<i>.<choice>` `tp<i>.<n>` `c` `k` `kb<kind>` `kt` `ku<i>` `ks` `a<d>`  (`kb<kind>`: the tick goroutine's
 dispatch step of an entry whose message is on disk only, while the spool entry cannot be opened; the
-kind — 1 meta-data missing, 2 meta-data undecodable, 3 header undecodable — matters to the harness only). -/
+kind — 1 meta-data missing, 2 meta-data undecodable, 3 header undecodable — matters to the harness only;
+`tp<i>.<n>`, n < 16: the delivery attempt of goroutine `i` panics — stage n % 4 of the dialogue (Start, AddRcpt,
+Body, Commit) and kind of panic value n / 4 matter to the harness only). -/
 
 def parseWho (s : String) : Option Who :=
   let cs := s.toList
@@ -18,6 +20,13 @@ def parseWho (s : String) : Option Who :=
   | 'k' :: 'b' :: rest => (String.ofList rest).toNat?.bind (fun n => if 1 ≤ n ∧ n ≤ 3 then some Who.tickBad else none)
   | 'k' :: 'u' :: rest => (String.ofList rest).toNat?.map Who.tickUpd
   | 'a' :: rest => (String.ofList rest).toNat?.map Who.clock
+  | 't' :: 'p' :: rest =>
+    match (String.ofList rest).splitOn "." with
+    | [i, n] => do
+      let i ← i.toNat?
+      let n ← n.toNat?
+      if n < 16 then pure (Who.thrPanic i) else none
+    | _ => none
   | 't' :: rest =>
     match (String.ofList rest).splitOn "." with
     | [i, c] => do
